@@ -9,29 +9,33 @@ Dst3 == {"absent", "fresh", "stale"}
 BB == BOOLEAN
 FF == {FALSE}
 TT == {TRUE}
-D(us, rq, sa, sb, al, im, da, db, ba, bb, bs, nd, rb, ie, nw, dr, tx, bi, qu) ==
-  [usage |-> us, req |-> rq, srcA |-> sa, srcB |-> sb, alias |-> al, imp |-> im, dstA |-> da, dstB |-> db,
+D(us, rq, sa, s2, sb, al, im, sp, da, db, ba, bb, bs, nd, rb, ie, nw, dr, tx, bi, qu) ==
+  [usage |-> us, req |-> rq, srcA |-> sa, src2A |-> s2, srcB |-> sb, alias |-> al, imp |-> im, spell |-> sp, dstA |-> da, dstB |-> db,
    borA |-> ba, borB |-> bb, base |-> bs, noDeps |-> nd, rebuild |-> rb, ignoreErrors |-> ie, noWrites |-> nw,
    dryRun |-> dr, texts |-> tx, buildIndex |-> bi, quiet |-> qu]
 KeepAll(x) == TRUE
 
 \* usage errors and --help: whatever else is on the command line, nothing happens
-Dom_usage == D({"help", "noMibs", "badOpt", "badFormat", "badLevel"}, {<<"AA-MIB">>}, {"ok"}, {"ok"}, FF, {"AB"},
+Dom_usage == D({"help", "noMibs", "badOpt", "badFormat", "badLevel"}, {<<"AA-MIB">>}, {"ok"}, {"missing"}, {"ok"}, FF, {"AB"}, {"exact"},
                {"absent"}, {"stale"}, FF, FF, TT, FF, FF, FF, FF, BB, {"no"}, BB, FF)
 
 \* status slice: every source / destination / borrower state of two modules with A importing B, main flags
-Dom_status == D({"none"}, {<<"AA-MIB">>, <<"BB-MIB", "AA-MIB">>}, Src3, Src3, FF, {"AB"}, Dst3, Dst3, BB, BB, TT,
+Dom_status == D({"none"}, {<<"AA-MIB">>, <<"BB-MIB", "AA-MIB">>}, Src3, {"missing"}, Src3, FF, {"AB"}, {"exact"}, Dst3, Dst3, BB, BB, TT,
                 BB, BB, BB, BB, BB, {"no"}, FF, FF)
 Keep_status_q(x) == x.dstB # "stale" /\ (x.borA => x.srcA # "ok") /\ (x.noDeps => ~x.rebuild)
 
 \* graph slice: import shapes (cycle included), alias file, base modules absent, request forms
 Dom_graph == D({"none"}, {<<"AA-MIB">>, <<"BB-MIB">>, <<"afile">>, <<"BB-MIB", "afile">>, <<"afile", "AA-MIB">>},
-               Src3, Src3, BB, {"none", "AB", "BA", "both"}, {"absent"}, {"absent", "fresh"}, FF, BB, BB,
+               Src3, {"missing"}, Src3, BB, {"none", "AB", "BA", "both"}, {"exact", "variant"}, {"absent"}, {"absent", "fresh"}, FF, BB, BB,
                BB, FF, BB, BB, FF, {"no"}, FF, FF)
-Keep_graph_q(x) == ~x.noWrites /\ (x.dstB = "fresh" => x.borB)
+Keep_graph_q(x) == ~x.noWrites /\ (x.dstB = "fresh" => x.borB) /\ (x.spell = "variant" => x.imp # "none" /\ ~x.alias)
+
+\* sources slice: two source directories, the first / second holding a good / broken / no copy of AA-MIB
+Dom_sources == D({"none"}, {<<"AA-MIB">>, <<"AA-MIB", "BB-MIB">>, <<"afile", "AA-MIB">>, <<"afile">>}, Src3, Src3, Src3, BB, {"AB", "BA"}, {"exact"},
+                 {"absent", "fresh"}, {"absent"}, BB, FF, TT, BB, FF, BB, FF, FF, {"no"}, FF, FF)
 
 \* reporting slice: index, quiet, texts/borrower flavour, dry-run / no-writes
-Dom_report == D({"none"}, {<<"AA-MIB">>}, {"ok"}, Src3, FF, {"AB"}, Dst3, {"absent"}, FF, BB, TT,
+Dom_report == D({"none"}, {<<"AA-MIB">>}, {"ok"}, {"missing"}, Src3, FF, {"AB"}, {"exact"}, Dst3, {"absent"}, FF, BB, TT,
                 FF, FF, BB, BB, BB, {"no", "before", "after"}, BB, BB)
 Keep_report_q(x) == x.buildIndex \/ (x.texts = "no" /\ ~x.quiet)
 
@@ -39,5 +43,6 @@ Scen == [w |-> w, exit |-> exitc, reported |-> reported,
          report |-> [c \in Status |-> report[c]],
          proc |-> {[name |-> m, st |-> proc[m].st] : m \in DOMAIN proc},
          written |-> Written(log), idx |-> idxw]
+ExportWorld == (dpc = "done") => PrintT(ToJson([w |-> w]))
 Export == (dpc = "done") => PrintT(ToJson(Scen))
 ====
